@@ -1,5 +1,6 @@
 import PyYetiVerif.Props.C02f
 import Mathlib.Data.Complex.Basic
+import Mathlib.LinearAlgebra.Matrix.NonsingularInverse
 /-!
 # C02 (continued) — `solvepsd` with the uncertainty factors `rbduf`, `elduf`
 
@@ -14,7 +15,7 @@ set_option linter.unusedSimpArgs false
 set_option linter.unusedSectionVars false
 set_option linter.unusedVariables false
 namespace PyYetiVerif.C02
-open PyYetiVerif.Freq
+open PyYetiVerif.Freq Matrix
 
 section uf
 variable {α : Type} [Field α]
@@ -95,7 +96,34 @@ theorem solvePsd_with_uf {ρ : Type} [Field ρ] {p n : Nat} (N : α → ρ)
 
 end uf
 
+/-! ### `pre_eig`: the modal solution transformed back solves the physical equation -/
+
+/-- `_do_pre_eig` / `_init_dva` / `_solution_freq`: with `Mm = φᵀMφ`, `Bm = φᵀBφ`, `Km = φᵀKφ`
+(`eigh` makes `Mm = I`, `Km = diag w`; that is the measured `eigh` specification) and `φ` invertible,
+a modal solution of `(Km − Ω²Mm + iΩBm) dm = φᵀF` gives the physical solution `d = φ dm` of
+`(K − Ω²M + iΩB) d = F`, with `v = φ vm`, `a = φ am` inheriting `v = iΩd`, `a = −Ω²d`. -/
+theorem preEig_solves {α : Type} [Field α] {n : Nat} (phi M B K Mm Bm Km : Matrix (Fin n) (Fin n) α)
+    (hphi : phi.det ≠ 0) (hM : phiᵀ * M * phi = Mm) (hB : phiᵀ * B * phi = Bm)
+    (hK : phiᵀ * K * phi = Km) (i w : α) (dm vm am F : Fin n → α)
+    (h : (Km - (w * w) • Mm + (i * w) • Bm) *ᵥ dm = phiᵀ *ᵥ F)
+    (hv : vm = (i * w) • dm) (ha : am = (-(w * w)) • dm) :
+    (K - (w * w) • M + (i * w) • B) *ᵥ (phi *ᵥ dm) = F ∧
+    phi *ᵥ vm = (i * w) • (phi *ᵥ dm) ∧ phi *ᵥ am = (-(w * w)) • (phi *ᵥ dm) := by
+  refine ⟨?_, by rw [hv, mulVec_smul], by rw [ha, mulVec_smul]⟩
+  have hu : IsUnit phiᵀ := by
+    rw [Matrix.isUnit_iff_isUnit_det, det_transpose]
+    exact isUnit_iff_ne_zero.mpr hphi
+  apply Matrix.mulVec_injective_of_isUnit hu
+  rw [← h, ← hM, ← hB, ← hK, mulVec_mulVec, mulVec_mulVec]
+  congr 1
+  simp only [Matrix.mul_add, Matrix.mul_sub, Matrix.add_mul, Matrix.sub_mul, Matrix.mul_smul,
+    Matrix.smul_mul, Matrix.mul_assoc]
+
 /-! ### the hypotheses are inhabited -/
+
+/-- a (non-orthogonal) mode-shape matrix with non-zero determinant -/
+example : (!![1, 1; 0, 2] : Matrix (Fin 2) (Fin 2) ℚ).det ≠ 0 := by
+  simp [Matrix.det_fin_two]
 
 /-- `Complex.normSq` is multiplicative, and a real factor enters as its square -/
 example : (∀ x y : ℂ, Complex.normSq (x * y) = Complex.normSq x * Complex.normSq y) ∧
